@@ -12,8 +12,8 @@ from props import base
 PROP = "C08B"
 PROPS_V = "theories/Props/C08.v"
 THEOREMS = [
-    "C08b_enum_eq_sound", "C08b_enum_neq_sound", "C08b_enum_neq_undeclared_sound", "C08b_enum_range_op_refuted",
-    "C08b_enum_rows_per_zone_wrap_refuted", "C08b_enum_build_ok", "C08b_enum_outside_known",
+    "C08b_enum_eq_sound", "C08b_enum_neq_sound", "C08b_enum_neq_undeclared_sound", "C08b_enum_unserved_op_all_zones",
+    "C08b_enum_rows_per_zone_wrap_refuted", "C08b_enum_build_ok", "C08b_enum_sound_all_operators",
     "C08b_temporal_sound", "C08b_temporal_eq_sound_any_magnitude", "C08b_temporal_neq_all_zones",
     "C08b_temporal_u32_wrap_refuted", "C08b_temporal_float_literal_refuted", "C08b_temporal_outside_known",
     "C08b_xor_key_agree", "C08b_xor_zone_sound", "C08b_xor_field_sound", "C08b_xor_non_eq_all_zones",
@@ -45,7 +45,7 @@ TRUSTED = [
 
 CLAIMED = False   # part of C08; tools/props/c08.py carries the manifest entry
 MANIFEST = {
- "level_text": "C08 part B. Theorems over the executable models of the enum bitmap index, the temporal calendar + per-zone index and the xor-filter key derivation: for ALL zone counts, value lists and probes, a zone holding a matching row is scanned (enum = and != with any literal; temporal =,>,>=,<,<= for data and probes of any sign below the u32 day-bucket wrap, != and IN always; xor: every operator, = given only the fuse-filter contract as a Section hypothesis). Where the faithful model still violates the property (range operator on an enum field, u16 rows_per_zone, u32 day buckets, float literal on a datetime field) a vm_compute witness (_refuted), a narrow KnownClass and an _outside_known theorem are proved, and the witness is replayed on the real pruners. Models run against the real builders/loaders/pruners on generated flushes.",
+ "level_text": "C08 part B. Theorems over the executable models of the enum bitmap index, the temporal calendar + per-zone index and the xor-filter key derivation: for ALL zone counts, value lists and probes, a zone holding a matching row is scanned (enum: every operator, any literal; temporal =,>,>=,<,<= for data and probes of any sign below the u32 day-bucket wrap, != and IN always; xor: every operator, = given only the fuse-filter contract as a Section hypothesis). Where the faithful model still violates the property (u16 rows_per_zone, u32 day buckets, float literal on a datetime field) a vm_compute witness (_refuted), a narrow KnownClass and an _outside_known theorem are proved, and the witness is replayed on the real pruners. Models run against the real builders/loaders/pruners on generated flushes.",
  "design_ref": "DESIGN.md §6 C08",
  "level_note": "Trusted: Coq kernel; translator plug-in p31_zoneidx; ExtrOcamlBasic extraction + OCaml probe; Rust harness; Python brute-force oracle. BinaryFuse8 membership is an assumed contract (Section hypothesis); f64 Display not modelled; selector None-handling and strategy choice read from the text only."
 }
@@ -524,7 +524,8 @@ def selected_zones(c, impl):
     z = zset(f.get("zres") if st == "xor" else f.get("res"))
     if z is not None:
         return z
-    if (op == "neq" and fl.get(key + "_none_neq_all")) or (op == "in" and fl.get(key + "_none_in_all")):
+    if (op == "neq" and fl.get(key + "_none_neq_all")) or (op == "in" and fl.get(key + "_none_in_all")) \
+            or (op != "eq" and fl.get(key + "_none_noneq_all")):
         return allz
     return allz if fl.get(key + "_none") == "1" else set()
 
@@ -557,8 +558,8 @@ def day_bucket(t):
 
 
 def classify(c, impl):
-    """Known classes still present after the fix round (f801704, db7c428): EnumRangeOp, EnumZoneLongerThanBitmap,
-    TemporalNonIntegerLiteral, TemporalBeyondU32."""
+    """Known classes still present after the fix round (f801704, db7c428): EnumZoneLongerThanBitmap,
+    TemporalNonIntegerLiteral, TemporalBeyondU32 (EnumRangeOp went with 01eee7e)."""
     st, op = c.get("st"), c.get("op")
     if st == "enum":
         if impl == "PANIC":
@@ -566,8 +567,6 @@ def classify(c, impl):
             if any(len(v) > first for _, v in c["zones"]) or first >= 65536:
                 return "EnumZoneLongerThanBitmap"
             return None
-        if op not in ("eq", "neq"):
-            return "EnumRangeOp"
         return None
     if st == "temp":
         if impl in ("PANIC", "ABORT") or c.get("lv") is None or op in ("neq", "in"):
